@@ -188,7 +188,7 @@ Section OpsDoc.
       destruct (norm_num pf a) eqn:EA, (norm_num pf c) eqn:EB; simpl; rewrite ?pf_bigint; auto.
       apply num_int_denote. apply sub_int_exact; [apply (wf_pnum_int a z)|apply (wf_pnum_int c z0)]; auto.
     - unfold binop_switch. cbn [norm]. unfold agrees. cbn [denote s_sub]. f_equal.
-      simpl in WL, WR. apply filter_map_denote. intros x I. rewrite existsb_map_denote; auto. eapply wf_in; eauto.
+      simpl in WL, WR. apply filter_map_denote. intros x I. rewrite existsb_map_denote; auto. apply (wf_in l x WL I).
   Qed.
 
   (* ---- multiplication ---- *)
@@ -228,4 +228,124 @@ Section OpsDoc.
 
   Lemma bcompare_some x y : fis_nan x = false -> fis_nan y = false -> Bcompare x y <> None.
   Proof. destruct x, y; simpl; try discriminate; intros; unfold Bcompare; simpl; try discriminate; repeat (destruct s; try discriminate); repeat (destruct s0; try discriminate); try (destruct (e ?= e1); try discriminate; destruct (Pos.compare_cont _ _ _); discriminate). Qed.
+
+  (* string repetition *)
+  Lemma iter_app_comm (s : bytes) n : Nat.iter n (app s) [] ++ s = s ++ Nat.iter n (app s) [].
+  Proof. induction n; simpl; [rewrite app_nil_r; reflexivity|]. rewrite <- app_assoc. rewrite IHn. reflexivity. Qed.
+  Lemma iter_app_swap (s : bytes) n : Nat.iter n (app s) [] = Nat.iter n (fun acc => acc ++ s) [].
+  Proof. induction n; simpl; [reflexivity|]. rewrite <- IHn. symmetry. apply iter_app_comm. Qed.
+  Lemma repeat_bytes_doc s c :
+    repeat_bytes_Z s c = match s, c with [], _ => [] | _, Zpos p => Pos.iter (fun acc => acc ++ s) [] p | _, _ => [] end.
+  Proof.
+    unfold repeat_bytes_Z. destruct s; [reflexivity|]. destruct c; try reflexivity.
+    rewrite !Pos2Nat.inj_iter. apply iter_app_swap.
+  Qed.
+  Lemma flt_fle x y : fis_nan x = false -> fis_nan y = false -> flt x y = negb (fle y x).
+  Proof.
+    intros HX HY. unfold flt, fle. pose proof (bcompare_some x y HX HY). rewrite (Bcompare_swap _ _ y x).
+    destruct (Bcompare x y) as [[]|]; simpl; auto. congruence.
+  Qed.
+  Lemma ftrunc_maxint32 : ftrunc f_max_int32 = 2147483647.
+  Proof. vm_compute. reflexivity. Qed.
+
+  Lemma repeat_string_doc s n : agrees (repeat_string s n) (s_repeat s (MFlt n)).
+  Proof.
+    unfold repeat_string, s_repeat, go_lt. cbn [dbl].
+    rewrite (orb_comm (flt n (fzero false))).
+    destruct (fis_nan n) eqn:EN; [reflexivity|]. simpl orb.
+    destruct (flt n (fzero false)); [reflexivity|].
+    rewrite flt_fle by auto. change (Z2F 2147483647) with f_max_int32.
+    destruct (fle f_max_int32 n); simpl negb; cbv iota; rewrite ?ftrunc_maxint32;
+      unfold mlen; (destruct (2147483647 <=? _); [exact I|]); simpl; rewrite repeat_bytes_doc; reflexivity.
+  Qed.
+  Lemma s_repeat_dbl s m : s_repeat s m = s_repeat s (MFlt (dbl m)).
+  Proof. reflexivity. Qed.
+
+  Theorem op_mul_doc l r : wf l = true -> wf r = true -> agrees (op_mul pf l r) (s_mul (denote l) (denote r)).
+  Proof.
+    intros WL WR. unfold op_mul.
+    destruct l as [| |a| | | |], r as [| |c| | | |]; try discriminate; try solve [nonnum_cases].
+    - rewrite binop_switch_nums. rewrite !denote_jnum.
+      destruct (norm_num pf a) eqn:EA, (norm_num pf c) eqn:EB; simpl; rewrite ?pf_bigint; auto.
+      apply num_int_denote. apply mul_int_exact; [apply (wf_pnum_int a z)|apply (wf_pnum_int c z0)]; auto.
+    - (* number * string *)
+      unfold binop_switch. rewrite norm_jnum. cbn [norm].
+      assert (E : to_float pf (JNum (num_of_pnum (norm_num pf a))) = Some (dbl (denote (JNum a)))).
+      { rewrite denote_jnum. pose proof (norm_num_wf pf a WL). destruct (norm_num pf a); simpl in *; rewrite ?pf_bigint; reflexivity. }
+      assert (M : is_mnum (denote (JNum a)) = true) by (rewrite denote_jnum; destruct (norm_num pf a); reflexivity).
+      destruct (norm_num pf a) eqn:EA; cbn [num_of_pnum] in *; cbv beta iota; rewrite E;
+        cbn [denote] in *; (destruct (denote_num pf a) eqn:ED; try discriminate M); cbn [s_mul is_mnum];
+        rewrite s_repeat_dbl; apply repeat_string_doc.
+    - (* string * number *)
+      unfold binop_switch. rewrite norm_jnum. cbn [norm].
+      assert (E : to_float pf (JNum (num_of_pnum (norm_num pf c))) = Some (dbl (denote (JNum c)))).
+      { rewrite denote_jnum. pose proof (norm_num_wf pf c WR). destruct (norm_num pf c); simpl in *; rewrite ?pf_bigint; reflexivity. }
+      assert (M : is_mnum (denote (JNum c)) = true) by (rewrite denote_jnum; destruct (norm_num pf c); reflexivity).
+      destruct (norm_num pf c) eqn:EA; cbn [num_of_pnum] in *; cbv beta iota; rewrite E;
+        cbn [denote] in *; (destruct (denote_num pf c) eqn:ED; try discriminate M); cbn [s_mul is_mnum];
+        rewrite s_repeat_dbl; apply repeat_string_doc.
+    - (* objects *)
+      unfold binop_switch. cbn [norm]. unfold agrees. rewrite deep_merge_doc. reflexivity.
+  Qed.
+
+  (* ---- division (every pair of operands except two strings: string splitting is judged by the
+     correspondence run only) and modulo ---- *)
+  Lemma rem_mod_zero x y : y <> 0 -> (Z.rem x y =? 0) = (x mod y =? 0).
+  Proof.
+    intros H. destruct (Z.eqb_spec (Z.rem x y) 0) as [E|E]; destruct (Z.eqb_spec (x mod y) 0) as [E2|E2]; auto; exfalso.
+    - apply Z.rem_divide in E; auto. apply Z.mod_divide in E; auto.
+    - apply Z.mod_divide in E2; auto. apply Z.rem_divide in E2; auto.
+  Qed.
+  Lemma quot_div_exact x y : y <> 0 -> x mod y = 0 -> Z.quot x y = x / y.
+  Proof.
+    intros H E. apply Z.mod_divide in E; auto. destruct E as [q ->]. rewrite Z.quot_mul, Z.div_mul; auto.
+  Qed.
+
+  Theorem op_div_doc l r : wf l = true -> wf r = true ->
+    (forall s t, l = JStr s -> r = JStr t -> False) ->
+    agrees (op_div pf l r) (s_div (denote l) (denote r)).
+  Proof.
+    intros WL WR NS. unfold op_div.
+    destruct l as [| |a| | | |], r as [| |c| | | |]; try discriminate; try solve [nonnum_cases].
+    - rewrite binop_switch_nums. rewrite !denote_jnum.
+      destruct (norm_num pf a) eqn:EA, (norm_num pf c) eqn:EB; cbn [mv_of_pnum s_div is_mnum andb both_int dbl];
+        rewrite ?pf_bigint; try reflexivity;
+        try (destruct (feq _ (fzero false)); reflexivity).
+      + (* int / int *)
+        destruct (z0 =? 0) eqn:E0; [reflexivity|]. destruct (z0 =? -1) eqn:E1.
+        * apply Z.eqb_eq in E1. subst z0. rewrite Z.rem_opp_r, Z.rem_1_r by lia. simpl.
+          replace (Z.quot z (-1)) with (- z) by (rewrite Z.quot_opp_r, Z.quot_1_r by lia; reflexivity).
+          apply num_int_denote. apply negate_int_exact. apply (wf_pnum_int a z); auto.
+        * destruct (Z.rem z z0 =? 0); reflexivity.
+      + destruct (z0 =? 0) eqn:E0; [reflexivity|]. apply Z.eqb_neq in E0. rewrite rem_mod_zero by auto.
+        destruct (z mod z0 =? 0) eqn:E2; [|reflexivity]. apply Z.eqb_eq in E2. simpl. rewrite quot_div_exact; auto.
+      + destruct (z0 =? 0) eqn:E0; [reflexivity|]. apply Z.eqb_neq in E0. rewrite rem_mod_zero by auto.
+        destruct (z mod z0 =? 0) eqn:E2; [|reflexivity]. apply Z.eqb_eq in E2. simpl. rewrite quot_div_exact; auto.
+      + destruct (z0 =? 0) eqn:E0; [reflexivity|]. apply Z.eqb_neq in E0. rewrite rem_mod_zero by auto.
+        destruct (z mod z0 =? 0) eqn:E2; [|reflexivity]. apply Z.eqb_eq in E2. simpl. rewrite quot_div_exact; auto.
+    - exfalso. eapply NS; reflexivity.
+  Qed.
+
+  Theorem op_mod_doc l r : wf l = true -> wf r = true -> agrees (op_mod pf l r) (s_mod (denote l) (denote r)).
+  Proof.
+    intros WL WR. unfold op_mod.
+    destruct l as [| |a| | | |], r as [| |c| | | |]; try discriminate; try solve [nonnum_cases].
+    rewrite binop_switch_nums. rewrite !denote_jnum.
+    destruct (norm_num pf a) eqn:EA, (norm_num pf c) eqn:EB; cbn [mv_of_pnum s_mod is_mnum andb both_int dbl as_index];
+      rewrite ?pf_bigint; try reflexivity;
+      try (destruct (fis_nan _ || fis_nan _); [reflexivity|]; destruct (float_to_int _ =? 0); reflexivity);
+      try (destruct (_ =? 0); reflexivity).
+    destruct (z0 =? 0) eqn:E0; [reflexivity|]. destruct (z0 =? -1) eqn:E1; [|reflexivity].
+    apply Z.eqb_eq in E1. subst. rewrite Z.rem_opp_r, Z.rem_1_r by lia. reflexivity.
+  Qed.
+
+  (* ---- comparison operators and // ---- *)
+  Theorem op_cmp_doc (t : Z -> bool) (t' : comparison -> bool) l r : wf l = true -> wf r = true ->
+    (forall c, t (cmp_Z c) = t' c) -> agrees (op_cmp pf t l r) (s_cmp t' (denote l) (denote r)).
+  Proof. intros WL WR H. unfold op_cmp, s_cmp, agrees. rewrite (compare_doc pf pf_bigint) by auto. rewrite H. reflexivity. Qed.
+  Theorem op_alt_doc l r : agrees (op_alt l r) (SVal (match denote l with MNull | MBool false => denote r | _ => denote l end)).
+  Proof.
+    unfold op_alt. destruct l as [|[]|n| | | |]; try reflexivity.
+    unfold agrees. rewrite denote_jnum. destruct (norm_num pf n); reflexivity.
+  Qed.
 End OpsDoc.
